@@ -135,6 +135,10 @@ func (s *Heatmap) WriteHeader(colNames ...string) (colCount int) {
 
 		sb.WriteString(underlineHeaderChar(name, 0))
 		i += nameLen
+		if nameLen == 0 { // a key without visible characters still occupies its column
+			sb.WriteRune(delim)
+			i++
+		}
 	}
 
 	if colCount < len(colNames) {
